@@ -1,24 +1,131 @@
-(* C16 — Rank restricted to what at most 64 rules produce: no word or one word. *)
+(* C16 — Rank: a list of 64-bit words, most significant first, is a set of rule indices of any
+   size.  rv is the number it stands for; every operation of the code is the corresponding
+   operation on that number. *)
 From Coq Require Import List NArith ZArith Bool Lia.
 From Coq Require Import ZifyBool ZifyN ZifyNat.
 From FV.C16 Require Import Model.
 Import ListNotations.
 Open Scope N_scope.
 
-(* a rank is a set of rule indices; for at most 64 rules the code keeps it in <= 1 word *)
-Definition rank_ok (r : rank) : Prop := r = [] \/ exists w, r = [w].
-Definition rv (r : rank) : N := match r with [] => 0 | w :: _ => w end.
+Definition W : N := 2 ^ 64.
+Definition rank_ok (r : rank) : Prop := Forall (fun w => w < W) r.
+(* value of a little-endian word list; a Rank is big-endian *)
+Fixpoint lv (l : list N) : N := match l with [] => 0 | w :: t => w + W * lv t end.
+Definition rv (r : rank) : N := lv (rev r).
 Definition rbit (r : rank) (k : nat) : bool := N.testbit (rv r) (N.of_nat k).
 
-Lemma rank_new_ok i : (i < 64)%nat -> rank_ok (rank_new i) /\ rv (rank_new i) = 2 ^ N.of_nat i.
+Lemma W_pos : 0 < W. Proof. reflexivity. Qed.
+Lemma rank_ok_nil : rank_ok []. Proof. constructor. Qed.
+Lemma rank_ok_rev r : rank_ok r -> rank_ok (rev r).
+Proof. unfold rank_ok. rewrite !Forall_forall. intros H w Hw. apply H. apply in_rev in Hw. first [exact Hw|now rewrite rev_involutive in Hw]. Qed.
+Lemma rank_ok_app a b : rank_ok a -> rank_ok b -> rank_ok (a ++ b).
+Proof. unfold rank_ok. intros. apply Forall_app. split; assumption. Qed.
+
+Lemma rbit_nil k : rbit [] k = false.
+Proof. unfold rbit, rv. cbn [rev lv]. apply N.bits_0. Qed.
+
+(* ---- bits of  x + 2^m * a  ------------------------------------------------------------ *)
+Lemma testbit_split m x a k : x < 2 ^ m ->
+  N.testbit (x + 2 ^ m * a) k = if k <? m then N.testbit x k else N.testbit a (k - m).
 Proof.
-  intros H. unfold rank_new. rewrite (Nat.div_small i 64) by exact H. rewrite (Nat.mod_small i 64) by exact H.
-  cbn [repeat]. split; [right; eexists; reflexivity|]. cbn [rv]. rewrite N.shiftl_1_l. reflexivity.
+  intros Hx. assert (Hp : 2 ^ m <> 0) by (apply N.pow_nonzero; lia).
+  destruct (N.ltb_spec k m) as [Hk|Hk].
+  - rewrite <- (N.mod_pow2_bits_low (x + 2 ^ m * a) m k Hk).
+    rewrite N.mul_comm, N.mod_add by exact Hp. now rewrite N.mod_small.
+  - replace k with ((k - m) + m) at 1 by lia. rewrite <- N.div_pow2_bits.
+    rewrite N.mul_comm, N.div_add by exact Hp. rewrite N.div_small by exact Hx. reflexivity.
 Qed.
 
-Lemma rbit_new i k : (i < 64)%nat -> rbit (rank_new i) k = Nat.eqb k i.
+Lemma lor_split m x y a b : x < 2 ^ m -> y < 2 ^ m ->
+  N.lor (x + 2 ^ m * a) (y + 2 ^ m * b) = N.lor x y + 2 ^ m * N.lor a b.
 Proof.
-  intros H. unfold rbit. destruct (rank_new_ok i H) as [_ ->].
+  intros Hx Hy. assert (Hxy : N.lor x y < 2 ^ m).
+  { destruct (N.eq_dec (N.lor x y) 0) as [E|E]; [rewrite E; apply N.neq_0_lt_0, N.pow_nonzero; lia|].
+    apply N.log2_lt_pow2; [lia|]. rewrite N.log2_lor.
+    destruct (N.eq_dec x 0) as [->|Ex]; destruct (N.eq_dec y 0) as [->|Ey]; cbn [N.log2 N.max] in *.
+    - now rewrite N.lor_0_l in E.
+    - rewrite N.max_r by lia. apply N.log2_lt_pow2; lia.
+    - rewrite N.max_l by lia. apply N.log2_lt_pow2; lia.
+    - apply N.max_lub_lt; apply N.log2_lt_pow2; lia. }
+  apply N.bits_inj. intros k. rewrite N.lor_spec, !testbit_split by assumption.
+  destruct (k <? m); now rewrite N.lor_spec.
+Qed.
+
+(* ---- little-endian values ------------------------------------------------------------------ *)
+Lemma lv_bound l : rank_ok l -> lv l < 2 ^ (64 * N.of_nat (length l)).
+Proof.
+  induction l as [|w t IH]; intros H; cbn [lv length]; [cbn; lia|].
+  inversion H as [|? ? Hw Ht]; subst. specialize (IH Ht).
+  replace (64 * N.of_nat (S (length t))) with (64 + 64 * N.of_nat (length t)) by lia.
+  rewrite N.pow_add_r. fold W. set (P := 2 ^ (64 * N.of_nat (length t))) in *.
+  assert (H1 : W * (lv t + 1) <= W * P) by (apply N.mul_le_mono_l; lia). lia.
+Qed.
+
+Lemma lv_app a b : lv (a ++ b) = lv a + 2 ^ (64 * N.of_nat (length a)) * lv b.
+Proof.
+  induction a as [|w t IH]; cbn [app lv length].
+  - change (N.of_nat 0) with 0. rewrite N.mul_0_r, N.pow_0_r. lia.
+  - rewrite IH. replace (64 * N.of_nat (S (length t))) with (64 + 64 * N.of_nat (length t)) by lia.
+    rewrite N.pow_add_r. fold W. lia.
+Qed.
+
+Lemma lv_repeat0 n : lv (repeat 0 n) = 0.
+Proof. induction n as [|n IH]; cbn [repeat lv]; [reflexivity|]. rewrite IH. lia. Qed.
+
+Lemma lv_zero l : forallb (fun w => w =? 0) l = (lv l =? 0).
+Proof.
+  induction l as [|w t IH]; cbn [forallb lv]; [reflexivity|]. rewrite IH.
+  destruct (N.eqb_spec w 0) as [->|Hw]; cbn [andb].
+  - destruct (N.eqb_spec (lv t) 0) as [->|Ht]; [reflexivity|]. symmetry. apply N.eqb_neq. unfold W. lia.
+  - symmetry. apply N.eqb_neq. lia.
+Qed.
+
+Lemma or_prefix_length a b : length (or_prefix a b) = length a.
+Proof. revert b. induction a as [|x a IH]; intros [|y b]; cbn [or_prefix length]; try reflexivity. now rewrite IH. Qed.
+
+Lemma or_prefix_ok a b : rank_ok a -> rank_ok b -> rank_ok (or_prefix a b).
+Proof.
+  revert b. induction a as [|x a IH]; intros [|y b] Ha Hb; cbn [or_prefix]; try assumption.
+  inversion Ha; inversion Hb; subst. constructor; [|now apply IH].
+  assert (E : N.lor (x + 2 ^ 64 * 0) (y + 2 ^ 64 * 0) = N.lor x y + 2 ^ 64 * N.lor 0 0) by (apply lor_split; assumption).
+  rewrite !N.mul_0_r, !N.add_0_r in E. cbn [N.lor] in E.
+  destruct (N.eq_dec (N.lor x y) 0) as [E0|E0]; [rewrite E0; reflexivity|].
+  apply N.log2_lt_pow2; [lia|]. rewrite N.log2_lor.
+  destruct (N.eq_dec x 0) as [->|Ex]; destruct (N.eq_dec y 0) as [->|Ey]; cbn [N.log2 N.max] in *.
+  - now rewrite N.lor_0_l in E0.
+  - rewrite N.max_r by lia. apply N.log2_lt_pow2; [lia|assumption].
+  - rewrite N.max_l by lia. apply N.log2_lt_pow2; [lia|assumption].
+  - apply N.max_lub_lt; apply N.log2_lt_pow2; try lia; assumption.
+Qed.
+
+Lemma or_prefix_lv a b : rank_ok a -> rank_ok b -> (length b <= length a)%nat ->
+  lv (or_prefix a b) = N.lor (lv a) (lv b).
+Proof.
+  revert b. induction a as [|x a IH]; intros [|y b] Ha Hb Hl; cbn [or_prefix lv length] in *; try lia.
+  - reflexivity.
+  - now rewrite N.lor_0_r.
+  - inversion Ha; inversion Hb; subst. rewrite IH by (try assumption; lia).
+    unfold W. symmetry. apply lor_split; assumption.
+Qed.
+
+(* ---- the operations ---------------------------------------------------------------------- *)
+Lemma rank_new_ok i : rank_ok (rank_new i) /\ rv (rank_new i) = 2 ^ N.of_nat i.
+Proof.
+  unfold rank_new. split.
+  - constructor.
+    + rewrite N.shiftl_1_l. apply N.pow_lt_mono_r; [lia|]. pose proof (Nat.mod_upper_bound i 64). lia.
+    + clear. induction (Nat.div i 64) as [|n IH]; cbn [repeat]; constructor; [reflexivity|exact IH].
+  - unfold rv. cbn [rev]. rewrite lv_app. rewrite rev_length, repeat_length.
+    assert (Hr : rev (repeat 0 (Nat.div i 64)) = repeat 0 (Nat.div i 64)).
+    { clear. induction (Nat.div i 64) as [|n IH]; [reflexivity|]. cbn [repeat rev]. rewrite IH.
+      clear. induction n as [|n IH]; [reflexivity|]. cbn [repeat app]. now rewrite IH. }
+    rewrite Hr, lv_repeat0. cbn [lv]. rewrite N.shiftl_1_l, N.mul_0_r, N.add_0_r, N.add_0_l.
+    rewrite <- N.pow_add_r. f_equal. pose proof (Nat.div_mod_eq i 64). lia.
+Qed.
+
+Lemma rbit_new i k : rbit (rank_new i) k = Nat.eqb k i.
+Proof.
+  unfold rbit. destruct (rank_new_ok i) as [_ ->].
   rewrite N.pow2_bits_eqb. destruct (Nat.eqb_spec k i) as [->|Hne]; [apply N.eqb_refl|].
   apply N.eqb_neq. lia.
 Qed.
@@ -26,21 +133,51 @@ Qed.
 Lemma rank_bitor_ok a b : rank_ok a -> rank_ok b ->
   rank_ok (rank_bitor a b) /\ rv (rank_bitor a b) = N.lor (rv a) (rv b).
 Proof.
-  intros [->|[w ->]] [->|[v ->]]; unfold rank_bitor; cbn.
-  - split; [now left|reflexivity].
-  - split; [right; eexists; reflexivity|reflexivity].
-  - split; [right; eexists; reflexivity|now rewrite N.lor_0_r].
-  - split; [right; eexists; reflexivity|apply N.lor_comm].
+  intros Ha Hb. unfold rank_bitor.
+  destruct (Nat.ltb_spec (length b) (length a)) as [Hl|Hl].
+  - split.
+    + apply rank_ok_rev, or_prefix_ok; now apply rank_ok_rev.
+    + unfold rv. rewrite rev_involutive. apply or_prefix_lv; try now apply rank_ok_rev. rewrite !rev_length. lia.
+  - split.
+    + apply rank_ok_rev, or_prefix_ok; now apply rank_ok_rev.
+    + unfold rv. rewrite rev_involutive. rewrite N.lor_comm. apply or_prefix_lv; try now apply rank_ok_rev. rewrite !rev_length. lia.
 Qed.
+
+Lemma firstn_ok n r : rank_ok r -> rank_ok (firstn n r).
+Proof. unfold rank_ok. rewrite !Forall_forall. intros H w Hw. apply H. rewrite <- (firstn_skipn n r). apply in_or_app. now left. Qed.
+Lemma skipn_ok n r : rank_ok r -> rank_ok (skipn n r).
+Proof. unfold rank_ok. rewrite !Forall_forall. intros H w Hw. apply H. rewrite <- (firstn_skipn n r). apply in_or_app. now right. Qed.
 
 Lemma rank_bitor_assign_ok a b : rank_ok a -> rank_ok b ->
   rank_ok (rank_bitor_assign a b) /\ rv (rank_bitor_assign a b) = N.lor (rv a) (rv b).
 Proof.
-  intros [->|[w ->]] [->|[v ->]]; unfold rank_bitor_assign; cbn.
-  - split; [now left|reflexivity].
-  - split; [right; eexists; reflexivity|apply N.lor_diag].
-  - split; [right; eexists; reflexivity|now rewrite N.lor_0_r].
-  - split; [right; eexists; reflexivity|reflexivity].
+  intros Ha Hb. unfold rank_bitor_assign.
+  set (missing := (length b - length a)%nat).
+  assert (Hpad : rank_ok (firstn missing b ++ a)) by (apply rank_ok_app; [now apply firstn_ok|exact Ha]).
+  split.
+  - apply rank_ok_rev, or_prefix_ok; now apply rank_ok_rev.
+  - unfold rv. rewrite rev_involutive.
+    rewrite or_prefix_lv; try now apply rank_ok_rev.
+    2:{ rewrite !rev_length, app_length, firstn_length. unfold missing. lia. }
+    rewrite rev_app_distr, lv_app, rev_length.
+    set (hi := lv (rev (firstn missing b))).
+    destruct (Nat.le_gt_cases (length b) (length a)) as [Hle|Hgt].
+    + (* nothing missing *)
+      assert (Hm : missing = 0%nat) by (unfold missing; lia).
+      unfold hi. rewrite Hm. cbn [firstn rev lv]. rewrite !N.mul_0_r, !N.add_0_r. reflexivity.
+    + (* b = its leading `missing` words followed by as many words as a has *)
+      set (lo := lv (rev (skipn missing b))).
+      assert (Hsk : length (skipn missing b) = length a) by (rewrite skipn_length; unfold missing; lia).
+      assert (Eb : lv (rev b) = lo + 2 ^ (64 * N.of_nat (length a)) * hi).
+      { unfold lo, hi. rewrite <- (firstn_skipn missing b) at 1. rewrite rev_app_distr, lv_app, rev_length, Hsk. reflexivity. }
+      rewrite Eb.
+      assert (Hla : lv (rev a) < 2 ^ (64 * N.of_nat (length a))).
+      { rewrite <- (rev_length a). apply lv_bound. now apply rank_ok_rev. }
+      assert (Hlo : lo < 2 ^ (64 * N.of_nat (length a))).
+      { unfold lo. rewrite <- Hsk, <- (rev_length (skipn missing b)). apply lv_bound. now apply rank_ok_rev, skipn_ok. }
+      rewrite (lor_split _ _ _ _ _ Hla Hlo). rewrite N.lor_diag.
+      replace (lv (rev a)) with (lv (rev a) + 2 ^ (64 * N.of_nat (length a)) * 0) at 2 by lia.
+      rewrite (lor_split _ _ _ _ _ Hla Hlo). rewrite N.lor_0_l. reflexivity.
 Qed.
 
 Lemma rbit_bitor a b k : rank_ok a -> rank_ok b -> rbit (rank_bitor a b) k = rbit a k || rbit b k.
@@ -49,11 +186,12 @@ Proof. intros Ha Hb. unfold rbit. destruct (rank_bitor_ok a b Ha Hb) as [_ ->]. 
 Lemma rbit_bitor_assign a b k : rank_ok a -> rank_ok b -> rbit (rank_bitor_assign a b) k = rbit a k || rbit b k.
 Proof. intros Ha Hb. unfold rbit. destruct (rank_bitor_assign_ok a b Ha Hb) as [_ ->]. apply N.lor_spec. Qed.
 
-Lemma rbit_nil k : rbit [] k = false.
-Proof. unfold rbit. cbn [rv]. apply N.bits_0. Qed.
-
-Lemma is_all_zeros_rv r : rank_ok r -> is_all_zeros r = (rv r =? 0).
-Proof. intros [->|[w ->]]; cbn; [reflexivity|]. now rewrite andb_true_r. Qed.
+Lemma is_all_zeros_rv r : is_all_zeros r = (rv r =? 0).
+Proof.
+  unfold is_all_zeros, rv. rewrite <- lv_zero.
+  clear. induction r as [|w t IH]; [reflexivity|]. cbn [forallb rev]. rewrite forallb_app. cbn [forallb].
+  rewrite IH. rewrite andb_true_r. apply andb_comm.
+Qed.
 
 (* ---- popcount ------------------------------------------------------------- *)
 Definition nsubset (a b : N) : Prop := forall k, N.testbit a k = true -> N.testbit b k = true.
@@ -108,6 +246,7 @@ Proof.
     exfalso. specialize (Hs 0). cbn in Hs. specialize (Hs eq_refl). discriminate.
 Qed.
 
+(* among subsets of one set, as many elements = the same set *)
 Lemma pop_subset a b : nsubset a b -> popcount a <= popcount b /\ (popcount b <= popcount a -> a = b).
 Proof.
   intros Hs. destruct a as [|p], b as [|q]; cbn [popcount].
@@ -118,27 +257,113 @@ Proof.
   - destruct (pop_subset_pos p q Hs) as [H1 H2]. split; [exact H1|]. intros H. f_equal. now apply H2.
 Qed.
 
-Lemma popcount_le_64 w : (forall k, N.testbit w k = true -> k < 64) -> popcount w <= 64.
+Lemma popcount_double n : popcount (2 * n) = popcount n.
+Proof. destruct n; reflexivity. Qed.
+Lemma popcount_succ_double n : popcount (2 * n + 1) = 1 + popcount n.
+Proof. destruct n; reflexivity. Qed.
+
+Lemma popcount_split : forall m x a, x < 2 ^ N.of_nat m -> popcount (x + 2 ^ N.of_nat m * a) = popcount x + popcount a.
 Proof.
-  intros H. assert (Hs : nsubset w (N.ones 64)).
-  { intros k Hk. apply N.ones_spec_low. now apply H. }
-  apply pop_subset in Hs as [Hs _]. exact Hs.
+  induction m as [|m IH]; intros x a Hx.
+  - cbn in Hx. assert (x = 0) by lia. subst x. cbn [N.of_nat]. rewrite N.pow_0_r, N.mul_1_l. reflexivity.
+  - replace (N.of_nat (S m)) with (N.succ (N.of_nat m)) in * by lia. rewrite N.pow_succ_r' in *.
+    destruct (N.even x) eqn:Ev.
+    + apply N.even_spec in Ev as [h ->].
+      replace (2 * h + 2 * 2 ^ N.of_nat m * a) with (2 * (h + 2 ^ N.of_nat m * a)) by lia.
+      rewrite !popcount_double. apply IH. lia.
+    + assert (Ho : N.odd x = true) by (rewrite <- N.negb_even, Ev; reflexivity).
+      apply N.odd_spec in Ho as [h ->].
+      replace (2 * h + 1 + 2 * 2 ^ N.of_nat m * a) with (2 * (h + 2 ^ N.of_nat m * a) + 1) by lia.
+      rewrite !popcount_succ_double. rewrite IH by lia. lia.
 Qed.
 
-(* fewer zeros = more rules; among subsets of one set, equally few zeros = the same set *)
-Lemma count_zeros_one w : count_zeros [w] = 64 - popcount w.
-Proof. cbn. lia. Qed.
+Lemma count_ones_rv r : rank_ok r -> count_ones r = popcount (rv r).
+Proof.
+  unfold rv. induction r as [|w t IH]; intros H; [reflexivity|].
+  inversion H as [|? ? Hw Ht]; subst. cbn [count_ones fold_right rev]. fold (count_ones t). rewrite (IH Ht).
+  rewrite lv_app. cbn [lv]. rewrite N.mul_0_r, N.add_0_r.
+  assert (Hb : lv (rev t) < 2 ^ (64 * N.of_nat (length (rev t)))) by (apply lv_bound; now apply rank_ok_rev).
+  replace (64 * N.of_nat (length (rev t))) with (N.of_nat (64 * length (rev t))) in * by lia.
+  rewrite popcount_split by exact Hb. lia.
+Qed.
 
 (* ---- reading the rule indices out of a rank ---------------------------------- *)
+Lemma first_bit_rv r : first_bit_is_set r = N.odd (rv r).
+Proof.
+  unfold first_bit_is_set, rv. destruct (rev r) as [|w t] eqn:E.
+  - assert (r = []) by (apply (f_equal (@rev N)) in E; rewrite rev_involutive in E; exact E). subst. reflexivity.
+  - assert (Hl : last r 0 = w).
+    { apply (f_equal (@rev N)) in E. rewrite rev_involutive in E. subst r. cbn [rev]. apply last_last. }
+    rewrite Hl. cbn [lv]. unfold W. rewrite N.odd_add, N.odd_mul. cbn. now rewrite xorb_false_r.
+Qed.
+
+(* the arithmetic of one step of the shift *)
+Lemma shr_arith c w x P : x < P -> (P = 1 \/ exists Q, P = 2 * Q) ->
+  (w mod 2 * P + x) / 2 + P * (w / 2 + c * 2 ^ 63) = (c * (2 ^ 64 * P) + (x + P * w)) / 2.
+Proof.
+  intros Hx HP. change (2 ^ 64) with 18446744073709551616. change (2 ^ 63) with 9223372036854775808.
+  pose proof (N.div_mod w 2 ltac:(lia)) as Hdm. pose proof (N.mod_upper_bound w 2 ltac:(lia)) as Hmb.
+  destruct HP as [->|[Q ->]].
+  - assert (x = 0) by lia. subst x. rewrite !N.mul_1_r, !N.mul_1_l, !N.add_0_r, !N.add_0_l.
+    rewrite (N.div_small (w mod 2) 2) by lia.
+    replace (c * 18446744073709551616 + w) with (w + (c * 9223372036854775808) * 2) by lia.
+    rewrite N.div_add by lia. lia.
+  - assert (Hq : Q * w = 2 * (Q * (w / 2)) + Q * (w mod 2)) by (rewrite Hdm at 1; lia).
+    replace (w mod 2 * (2 * Q) + x) with (x + (Q * (w mod 2)) * 2) by lia. rewrite N.div_add by lia.
+    replace (c * (18446744073709551616 * (2 * Q)) + (x + 2 * Q * w))
+      with (x + (c * 18446744073709551616 * Q + Q * w) * 2) by lia.
+    rewrite N.div_add by lia. lia.
+Qed.
+
+(* shifting the words right by one, with the carry coming in at the top *)
+Lemma shr1_spec : forall r c, rank_ok r -> c <= 1 ->
+  rank_ok (shr1 r c) /\ length (shr1 r c) = length r /\
+  rv (shr1 r c) = (c * 2 ^ (64 * N.of_nat (length r)) + rv r) / 2.
+Proof.
+  induction r as [|w t IH]; intros c Hr Hc.
+  - cbn. split; [constructor|]. split; [reflexivity|]. unfold rv. cbn. assert (c = 0 \/ c = 1) as [->| ->] by lia; reflexivity.
+  - inversion Hr as [|? ? Hw Ht]; subst. cbn [shr1 length].
+    assert (Hc' : N.land w 1 <= 1).
+    { change 1 with (N.ones 1). rewrite N.land_ones. cbn. pose proof (N.mod_upper_bound w 2). lia. }
+    destruct (IH (N.land w 1) Ht Hc') as [Hok [Hlen Hval]].
+    assert (Hw2 : N.shiftr w 1 < 2 ^ 63).
+    { rewrite N.shiftr_div_pow2. cbn. unfold W in Hw. apply N.div_lt_upper_bound; [lia|]. cbn in *. lia. }
+    assert (Hnew : N.lor (N.shiftr w 1) (N.shiftl c 63) = w / 2 + c * 2 ^ 63).
+    { rewrite N.shiftr_div_pow2, N.shiftl_mul_pow2. change (2 ^ 1) with 2.
+      assert (E : N.lor (w / 2 + 2 ^ 63 * 0) (0 + 2 ^ 63 * c) = N.lor (w / 2) 0 + 2 ^ 63 * N.lor 0 c).
+      { apply lor_split; [rewrite N.shiftr_div_pow2 in Hw2; exact Hw2|cbn; lia]. }
+      rewrite N.mul_0_r, N.add_0_r, N.add_0_l, N.lor_0_r, N.lor_0_l in E. rewrite (N.mul_comm c). exact E. }
+    split; [|split].
+    + constructor; [|exact Hok]. rewrite Hnew. rewrite N.shiftr_div_pow2 in Hw2. change (2 ^ 1) with 2 in Hw2.
+      unfold W. assert (c = 0 \/ c = 1) as [->| ->] by lia; cbn in *; lia.
+    + now rewrite Hlen.
+    + unfold rv in *. cbn [rev]. rewrite !lv_app. cbn [lv]. rewrite !N.mul_0_r, !N.add_0_r.
+      rewrite !rev_length, Hlen. rewrite Hval, Hnew.
+      set (n := length t). set (P := 2 ^ (64 * N.of_nat n)). set (x := lv (rev t)).
+      replace (64 * N.of_nat (S n)) with (64 + 64 * N.of_nat n) by lia. rewrite N.pow_add_r. fold P.
+      assert (Hl1 : N.land w 1 = w mod 2) by (change 1 with (N.ones 1); now rewrite N.land_ones).
+      rewrite Hl1.
+      assert (HP : P = 1 \/ exists Q, P = 2 * Q).
+      { unfold P. destruct n as [|n']; [left; reflexivity|right].
+        exists (2 ^ (64 * N.of_nat (S n') - 1)). rewrite <- N.pow_succ_r'. f_equal. lia. }
+      assert (Hx : x < P).
+      { unfold x, P, n. rewrite <- (rev_length t). apply lv_bound. now apply rank_ok_rev. }
+      apply shr_arith; [exact Hx|exact HP].
+Qed.
+
+Lemma right_shift_rv r : rank_ok r ->
+  rank_ok (right_shift_one r) /\ length (right_shift_one r) = length r /\ rv (right_shift_one r) = N.div2 (rv r).
+Proof.
+  intros H. unfold right_shift_one. destruct (shr1_spec r 0 H ltac:(lia)) as [H1 [H2 H3]].
+  split; [exact H1|]. split; [exact H2|]. rewrite H3, N.mul_0_l, N.add_0_l. now rewrite N.div2_div.
+Qed.
+
 (* the elements of l whose position is a set bit of w *)
 Fixpoint pickw (l : list submap) (w : N) : list submap :=
   match l with
   | [] => []
   | s :: t => if N.odd w then s :: pickw t (N.div2 w) else pickw t (N.div2 w)
   end.
-
-Lemma shr1_one w : right_shift_one [w] = [N.div2 w].
-Proof. unfold right_shift_one. cbn. now rewrite N.lor_0_r, N.div2_spec. Qed.
 
 Lemma testbit_div2 w k : N.testbit (N.div2 w) k = N.testbit w (N.succ k).
 Proof. now rewrite N.div2_spec, N.shiftr_spec, N.add_1_r by lia. Qed.
@@ -157,35 +382,38 @@ Lemma expand_rank_S f (subs : list submap) r i :
        else expand_rank f subs (right_shift_one r) (S i).
 Proof. reflexivity. Qed.
 
-Lemma expand_rank_one (subs : list submap) : forall f w i,
-  w < 2 ^ N.of_nat f ->
-  (forall k, N.testbit w (N.of_nat k) = true -> (i + k < length subs)%nat) ->
-  expand_rank (S f) subs [w] i = Ok (pickw (skipn i subs) w).
+(* the loop that turns a rank into the list of its rules' maps: no panic as long as every set bit
+   names an existing rule, enough fuel as long as the fuel exceeds the bit length *)
+Lemma expand_rank_spec (subs : list submap) : forall f r i,
+  rank_ok r -> rv r < 2 ^ N.of_nat f ->
+  (forall k, N.testbit (rv r) (N.of_nat k) = true -> (i + k < length subs)%nat) ->
+  expand_rank (S f) subs r i = Ok (pickw (skipn i subs) (rv r)).
 Proof.
-  induction f as [|f IH]; intros w i Hw Hb.
-  - assert (w = 0) by (cbn in Hw; lia). subst w. rewrite expand_rank_S. cbn [is_all_zeros forallb N.eqb andb]. now rewrite pickw_0.
-  - rewrite expand_rank_S. cbn [is_all_zeros forallb]. rewrite andb_true_r.
-    destruct (N.eqb_spec w 0) as [->|Hnz]; [now rewrite pickw_0|].
+  induction f as [|f IH]; intros r i Hok Hw Hb.
+  - assert (Hz : rv r = 0) by (cbn in Hw; lia). rewrite expand_rank_S, is_all_zeros_rv, Hz. cbn [N.eqb]. now rewrite pickw_0.
+  - rewrite expand_rank_S, is_all_zeros_rv.
+    destruct (N.eqb_spec (rv r) 0) as [Hz|Hnz]; [rewrite Hz; now rewrite pickw_0|].
+    destruct (right_shift_rv r Hok) as [Hok' [_ Hval]].
     assert (Hi : (i < length subs)%nat).
-    { specialize (Hb (N.to_nat (N.log2 w))). rewrite N2Nat.id in Hb. rewrite N.bit_log2 in Hb by exact Hnz.
+    { specialize (Hb (N.to_nat (N.log2 (rv r)))). rewrite N2Nat.id in Hb. rewrite N.bit_log2 in Hb by exact Hnz.
       specialize (Hb eq_refl). lia. }
-    assert (Hw2 : N.div2 w < 2 ^ N.of_nat f).
-    { rewrite N.div2_div. apply N.div_lt_upper_bound; [lia|].
+    assert (Hw2 : rv (right_shift_one r) < 2 ^ N.of_nat f).
+    { rewrite Hval, N.div2_div. apply N.div_lt_upper_bound; [lia|].
       replace (N.of_nat (S f)) with (N.succ (N.of_nat f)) in Hw by lia. rewrite N.pow_succ_r' in Hw. exact Hw. }
-    assert (Hb2 : forall k, N.testbit (N.div2 w) (N.of_nat k) = true -> (S i + k < length subs)%nat).
-    { intros k Hk. rewrite testbit_div2 in Hk. specialize (Hb (S k)).
+    assert (Hb2 : forall k, N.testbit (rv (right_shift_one r)) (N.of_nat k) = true -> (S i + k < length subs)%nat).
+    { intros k Hk. rewrite Hval, testbit_div2 in Hk. specialize (Hb (S k)).
       replace (N.of_nat (S k)) with (N.succ (N.of_nat k)) in Hb by lia. specialize (Hb Hk). lia. }
-    unfold first_bit_is_set. cbn [last]. rewrite shr1_one.
+    rewrite first_bit_rv.
     destruct (nth_error subs i) as [s|] eqn:En; [|apply nth_error_None in En; lia].
     assert (Hsk : skipn i subs = s :: skipn (S i) subs).
     { clear -En. revert i En. induction subs as [|x t IHt]; intros [|i] En; cbn in *; try discriminate.
       - now inversion En.
       - now apply IHt. }
-    rewrite Hsk. cbn [pickw]. rewrite (IH (N.div2 w) (S i) Hw2 Hb2).
-    destruct (N.odd w); reflexivity.
+    rewrite Hsk. cbn [pickw]. rewrite (IH (right_shift_one r) (S i) Hok' Hw2 Hb2), Hval.
+    destruct (N.odd (rv r)); reflexivity.
 Qed.
 
-(* the bits of a one-word rank select the substitution maps of the rules they name *)
+(* the bits select the substitution maps of the rules they name *)
 Lemma pickw_filter (rules : list rule) (f : rule -> bool) : forall w,
   (forall k, (k < length rules)%nat -> N.testbit w (N.of_nat k) = f (nth k rules ([], []))) ->
   pickw (map snd rules) w = map snd (filter f rules).
